@@ -283,7 +283,7 @@ PROPERTIES = {
         'claim': 'writer logic only: every option registered in the constructor (name and value type as resolved by clang) that is not in the writer own skip list has a value type the writer can write; alpha0 is replaced by 0 only when a synchrotron frequency is given; every legacy alias the writer skips has its value copied by parse() into the stored value of the canonical option bound to the same member; entries are left out by name only (or, if by their defaulted flag, no stored value is modified in place); '
                  'the parent config name is written as a comment',
         'assumptions': ['boost::program_options parses what the writer prints (text round trip of numbers, repeated keys for vector options) — not modelled', 'AST pattern extraction of the registration table (59 options found on the pinned tree; fewer than 40 aborts)'],
-        'uncovered': ['floating-point text formatting precision', 'options given in a parent config file (stored by program_options like any other)', 'that rerunning reproduces the results'],
+        'uncovered': ['that the C++ stream prints / boost parses max_digits10 digits exactly (library behaviour; the number of digits written is an obligation, the round trip is exercised natively by po_replay)', 'options given in a parent config file (stored by program_options like any other; exercised natively by po_replay)', 'that rerunning reproduces the results'],
         'explanation': 'obligations over facts extracted from the real AST of the constructor and of save()',
         'technique': 'contract over AST-extracted registration/dispatch tables (writer covers every registered value type), z3 for the alpha0 branch condition',
     },
